@@ -147,8 +147,10 @@ class Gen:
         return None
 
     def pick_name(self, i, host, single):
+        # (a name of ANOTHER workbook - spelt '[b.xlsx]'!NAME - with p_xname)
+        other = self.rng.chance(self.p.get('p_xname', 0))
         ks = [k for k, n in enumerate(self.world['names'])
-              if n['avail'] <= i and n['b'] == host[0]
+              if n['avail'] <= i and (n['b'] == host[0] or other)
               and (not single or n['t'][3:5] == n['t'][5:7])]
         return ['nm', self.rng.pick(ks)] if ks else None
 
